@@ -76,9 +76,7 @@ func (w *c11World) notify(i int, f func()) {
 		w.settle()
 		return
 	}
-	w.s.client = nil
-	f()
-	w.s.client = w.cl
+	zzMuted(w.s, w.cl, f)
 	if i >= 0 && w.open[i] {
 		w.s.publishDiagnostics(w.ctx, w.uri(i), w.buf[i])
 	}
